@@ -106,6 +106,7 @@ def run(ctx: Ctx, rep: Report, tier: str):
                for lp in ctx.own_nodes(wk))
     rep.check("C01.R4", "intake|sources", du, all(srcs.values()) and walk, "events(), the queue and the walk all feed _process_event", "an event source no longer feeds _process_event (%s, walk %s)" % (srcs, walk))
     pe = em.methods["_process_event"]
+    from rules.common import unchanged_walk_facts as _unchanged_walk_facts
     g = ctx.cfg(pe)
     upd = [n for n in g.nodes if node_has_call(n, "self.state.update($$$)")]
     drops = []
@@ -128,7 +129,7 @@ def run(ctx: Ctx, rep: Report, tier: str):
             kinds.append("falsy-event")
         elif fact_in(facts, "event.oid is None", True):
             kinds.append("no-id")
-        elif fact_in(facts, "from_walk", True) and chg_name is not None and fact_in(facts, chg_name, False):
+        elif fact_in(facts, "from_walk", True) and _unchanged_walk_facts(facts, chg_name):
             kinds.append("unchanged-walk")
         else:
             kinds.append("?" + str(sorted(facts)))
